@@ -1076,8 +1076,146 @@ Proof.
     as [ns2 [ok2 [Eap2 [Hko Hok]]]].
   rewrite Eap in Eap2. inversion Eap2; subst ns2 ok2.
   destruct okr.
-  - right. exists t, o. rewrite Ens. repeat split; try assumption; try (apply Hok; reflexivity).
+  - right. exists t, o. rewrite Ens. split; [exact HU|]. split; [exact Hv|]. split; [exact Hb|].
+    split; [apply Hok; reflexivity | exact Hanc'].
   - left. rewrite Ens. apply Hko. reflexivity.
 Qed.
 
 End Run.
+
+(* ------------------------------------------------------------------ *)
+(* the statements *)
+
+Section Statements.
+Variable anc : oid -> oid -> bool.
+Variable U : universe.
+
+Lemma touched_namespaces_match c L S res L' r : sorted S ->
+  run anc U c L S = (res, L') ->
+  ns_of L' r <> ns_of L r ->
+  exists t o,
+    sigrefs_of L' r = Some t /\ lookup t U = Some o /\
+    so_sig_ok o = true /\ so_root_ok o = true /\
+    (forall n v, lookup n (so_content o) = Some v -> lookup n (ns_of L' r) = Some v) /\
+    (forall n v, n <> SIGREFS -> lookup n (ns_of L' r) = Some v ->
+       lookup n (so_content o) = Some v \/
+       (is_rad n = true /\ lookup n (so_content o) = None /\ lookup n (ns_of L r) = Some v)).
+Proof.
+  intros HS Hrun Hch.
+  destruct (run_namespace anc U c L S res L' r HS Hrun) as [Hsame|[t [o [HU [Hv [Hb [[M1 [M2 M3]] _]]]]]]].
+  { contradiction. }
+  exists t, o. unfold so_valid in Hv. apply andb_true_iff in Hv. destruct Hv as [Hv1 Hv2].
+  repeat split; assumption.
+Qed.
+
+(* when no stale refs/rad/* reference is in the way the match is exact *)
+Lemma touched_namespaces_exact c L S res L' r : sorted S ->
+  run anc U c L S = (res, L') ->
+  ns_of L' r <> ns_of L r ->
+  (forall n, is_rad n = true -> n <> SIGREFS -> lookup n (ns_of L r) = None) ->
+  exists t o,
+    sigrefs_of L' r = Some t /\ lookup t U = Some o /\
+    so_sig_ok o = true /\ so_root_ok o = true /\
+    forall n, n <> SIGREFS -> lookup n (ns_of L' r) = lookup n (so_content o).
+Proof.
+  intros HS Hrun Hch Hnostale.
+  destruct (touched_namespaces_match c L S res L' r HS Hrun Hch) as [t [o [H1 [H2 [H3 [H4 [H5 H6]]]]]]].
+  exists t, o. repeat split; try assumption.
+  intros n Hn. destruct (lookup n (ns_of L' r)) as [v|] eqn:El.
+  - destruct (H6 n v Hn El) as [Hc|[Hr [_ Hl]]]; [congruence|].
+    rewrite (Hnostale n Hr Hn) in Hl. discriminate.
+  - destruct (lookup n (so_content o)) as [v|] eqn:Ec; [|reflexivity].
+    rewrite (H5 n v Ec) in El. discriminate.
+Qed.
+
+Lemma blocked_namespace_untouched c L S res L' r : sorted S ->
+  run anc U c L S = (res, L') -> is_blocked c r = true -> ns_of L' r = ns_of L r.
+Proof.
+  intros HS Hrun Hb.
+  destruct (run_namespace anc U c L S res L' r HS Hrun) as [Hsame|[t [o [_ [_ [Hb' _]]]]]]; [exact Hsame | congruence].
+Qed.
+
+Lemma sigrefs_monotone c L S res L' r a : sorted S ->
+  run anc U c L S = (res, L') ->
+  sigrefs_of L r = Some a ->
+  exists b, sigrefs_of L' r = Some b /\ (a = b \/ anc a b = true).
+Proof.
+  intros HS Hrun Ha.
+  destruct (run_namespace anc U c L S res L' r HS Hrun) as [Hsame|[t [o [_ [_ [_ [[M1 _] Hanc]]]]]]].
+  - exists a. unfold sigrefs_of. rewrite Hsame. split; [exact Ha | left; reflexivity].
+  - exists t. split; [exact M1 | apply Hanc; exact Ha].
+Qed.
+
+Lemma loop_step_err c L st x e :
+  loop_step anc U c L (inr st) x = inl e -> exists k, e = RErr k.
+Proof.
+  destruct st as [tips valid]. destruct x as [r [t o]]. cbn [Fetch.loop_step fst snd].
+  destruct (is_blocked c r); [discriminate|].
+  destruct (sigrefs_of L r) as [a|].
+  - destruct (load_at U a); try (intros E; inversion E; eexists; reflexivity).
+    destruct (ancestry_of anc a t); try (destruct (validate _ _); discriminate); try discriminate.
+    destruct (is_delegate c r); [intros E; inversion E; eexists; reflexivity | discriminate].
+  - destruct (validate _ _); discriminate.
+Qed.
+
+Lemma loop_fold_err c L xs : forall acc e,
+  (forall e0, acc = inl e0 -> exists k, e0 = RErr k) ->
+  fold_left (loop_step anc U c L) xs acc = inl e -> exists k, e = RErr k.
+Proof.
+  induction xs as [|x xs IH]; intros acc e Hacc; cbn [fold_left].
+  - intros E. apply Hacc. exact E.
+  - apply IH. intros e0 E0. destruct acc as [e1|st].
+    + cbn in E0. inversion E0; subst. apply Hacc. reflexivity.
+    + eapply loop_step_err. exact E0.
+Qed.
+
+Lemma plan_err c L S e : plan anc U c L S = inl e -> exists k, e = RErr k.
+Proof.
+  unfold plan. destruct (negb (c_srv_canon c)); [intros E; inversion E; eexists; reflexivity|].
+  destruct (match c_refs_at c with Some ras => _ | None => _ end) as [e1|s] eqn:Est.
+  - intros E. inversion E; subst e1. destruct (c_refs_at c) as [ras|].
+    + unfold stage_sigrefs_at in Est. cbv zeta in Est.
+      match type of Est with context [forallb ?f ?l] => destruct (forallb f l) end; cbn [negb] in Est;
+        [|inversion Est; eexists; reflexivity].
+      match type of Est with context [Fetch.load_all ?a ?b ?c0 ?d ?e0] => destruct (Fetch.load_all a b c0 d e0) end;
+        [discriminate | inversion Est; eexists; reflexivity].
+    + unfold stage_special in Est. cbv zeta in Est.
+      match type of Est with (if ?b then _ else _) = _ => destruct b end; [inversion Est; eexists; reflexivity|].
+      match type of Est with context [Fetch.load_all ?a ?b ?c0 ?d ?e0] => destruct (Fetch.load_all a b c0 d e0) end;
+        [discriminate | inversion Est; eexists; reflexivity].
+  - apply loop_fold_err. intros e0 E0. discriminate.
+Qed.
+
+Lemma success_needs_threshold c L S L' : sorted S ->
+  run anc U c L S = (RSuccess, L') ->
+  exists V : list nid, NoDup V /\ eff_threshold c <= N.of_nat (length V) /\
+    forall d, In d V -> is_delegate c d = true /\ sigrefs_of L' d <> None.
+Proof.
+  intros HS Hrun. pose proof Hrun as Hrun0. unfold run in Hrun.
+  destruct (plan anc U c L S) as [e|[tips valid]] eqn:Ep.
+  { destruct (plan_err _ _ _ _ Ep) as [k ->]. inversion Hrun. }
+  destruct (N.leb_spec (eff_threshold c) (N.of_nat (length valid))) as [Hle|Hgt].
+  2:{ inversion Hrun. }
+  destruct (apply_all anc L tips) as [L1 ok] eqn:Ea. destruct ok; [|discriminate].
+  inversion Hrun; subst L1. clear Hrun.
+  destruct (plan_spec anc U c L S tips valid HS Ep) as [Hts [Hpl [Hvs Hvd]]].
+  exists (keys valid). split; [apply sorted_NoDup_keys; exact Hvs|].
+  split; [unfold keys; rewrite map_length; exact Hle|].
+  intros d Hd. destruct (Hvd d Hd) as [Hdel Hsrc]. split; [exact Hdel|].
+  destruct Hsrc as [Hloc|[us Hl]].
+  - destruct (sigrefs_of L d) as [a|] eqn:Ea0; [|congruence].
+    destruct (sigrefs_monotone c L S RSuccess L' d a HS Hrun0 Ea0) as [b [Hb _]]. congruence.
+  - destruct (apply_all_spec anc tips Hts _ _ _ Ea d) as [[_ Hnone]|[us' [ns' [okr [Hl' [Eap [Ens Hokr]]]]]]].
+    { rewrite (Hnone eq_refl) in Hl. discriminate. }
+    rewrite Hl in Hl'. inversion Hl'; subst us'.
+    destruct (Hpl d us Hl) as [t [o [sp [HU [Hv [Hb [Hsh [Eus [Hval Hanc]]]]]]]]]. subst us.
+    assert (Hanc' : forall a, lookup SIGREFS (ns_of L d) = Some a -> a = t \/ anc a t = true).
+    { intros a Ha. apply (Hanc a Ha). }
+    destruct (ns_match anc (ns_of L d) (so_content o) (pol c d) t sp Hsh Hval Hanc')
+      as [ns2 [ok2 [Eap2 [_ Hok]]]].
+    rewrite Eap in Eap2. inversion Eap2; subst ns2 ok2.
+    rewrite (Hokr eq_refl) in Hok. destruct (Hok eq_refl) as [M1 _].
+    unfold sigrefs_of. rewrite Ens, M1. discriminate.
+Qed.
+
+End Statements.
